@@ -247,6 +247,23 @@ def d3(cx: Cx, ob: Ob) -> None:
                 v = rk.get(f)
                 if v is None or not any(x == ("param", f) for x in subterms(v)):
                     ob.violate(ap.qualname, where(ap, ev.line), f"Record field `{f}` is not built from the `{f}` argument", detail=f"role:{f}")
+                    continue
+                # every synonym passed reaches the record: a filter may only drop exact repetitions of the
+                # canonical value (which Record itself rejects)
+                canon_p = ("param", "prefix" if f == "prefix_synonyms" else "uri_prefix")
+                for x in subterms(v):
+                    if op(x) == "comp" and len(x[3]) == 1 and any(y == ("param", f) for y in subterms(x[3][0][1])):
+                        tgt_, _, ifs_ = x[3][0]
+                        for c_ in ifs_:
+                            exact = op(c_) == "cmp" and c_[1] == "!=" and {c_[2], c_[3]} == {tgt_, canon_p}
+                            if not exact:
+                                ob.violate(
+                                    ap.qualname,
+                                    where(ap, ev.line),
+                                    f"add_prefix drops the `{f}` for which `{show(c_)[:60]}` fails before building the record: names the caller asked to register (e.g. a spelling that differs from the canonical one only by case) never reach the converter",
+                                    witness="add_prefix('hgnc', ..., prefix_synonyms=['HGNC'], case_sensitive=False): expand('HGNC:1') is None",
+                                    detail=f"synonym-filter:{f}",
+                                )
 
 
 @obligation("C05-D4", "pairing: every path of add_record that returns normally merges into or appends a record and passes afterwards, unconditionally, through _index of the record that changed", floor=2)
@@ -401,6 +418,51 @@ def check_add_record_pairing(cx: Cx, ob: Ob) -> None:
                 )
 
     scan(s.paths, True)
+    # _index runs after the record list has been changed (append / merge): if it can raise, a rejected call leaves
+    # the record in self.records with some of its names indexed and others not
+    ixf = cx.model.functions.get(f"{CONV}._index")
+    if ixf is not None:
+        ixs = cx.summary(ixf, ob.id)
+        for t, rctx in ixs.raises():
+            line = rctx.path.out[2] if rctx.path.out is not None and len(rctx.path.out) > 2 else ixf.node.lineno
+            ob.violate(
+                ixf.qualname,
+                where(ixf, line),
+                f"_index can raise (`{show(t)[:50]}`): add_record has already appended / merged the record when it indexes it, so the rejected call leaves a record whose names are only partly (or not at all) in the lookup tables - expand answers for names compress does not know",
+                witness="add_prefix with a name _index rejects among the synonyms: ValueError, and the converter keeps a half-indexed record",
+                detail="index-raises",
+            )
+            break
+    # add_prefix: every path that returns normally has handed the record to add_record - except when the call
+    # provably asks for nothing new: the (prefix, URI prefix) pair is registered as given AND no synonyms are passed
+    from ..rules import guard_atoms
+
+    ap = cx.model.functions.get(f"{CONV}.add_prefix")
+    if ap is not None and ap.self_name:
+        sp = cx.summary(ap, ob.id)
+        mep = ("param", ap.self_name)
+        for p in sp.paths:
+            if p.out is not None and p.out[0] == "raise":
+                continue
+            delegated = any(self_call(c, mep, "add_record") for ev in p.events for t in (ev.a, ev.b) if isinstance(t, tuple) for c in subterms(t) if op(c) == "call")
+            if delegated:
+                continue
+            atoms = guard_atoms([g for g in p.events if g.kind == "guard"])
+            pm_get = ("call", ("attr", ("attr", mep, "prefix_map"), "get"), (("param", "prefix"),), ())
+            registered = any(op(a) == "cmp" and a[1] == "==" and {a[2], a[3]} == {pm_get, ("param", "uri_prefix")} and pol is True for a, pol in atoms)
+            no_syn = all(any((a == ("param", n) and pol is False) or (a == ("cmp", "is", ("param", n), ("const", None)) and pol is True) for a, pol in atoms) for n in ("prefix_synonyms", "uri_prefix_synonyms"))
+            line = p.out[2] if p.out is not None and len(p.out) > 2 else ap.node.lineno
+            if registered and no_syn:
+                ob.site(f"{where(ap, line)} {ap.qualname}", "no-op return: the pair is registered as given and no synonyms are passed")
+                continue
+            conds = [("" if g.b else "not ") + show(g.a)[:60] for g in p.events if g.kind == "guard"]
+            ob.violate(
+                ap.qualname,
+                where(ap, line),
+                "add_prefix can return normally without handing the record to add_record: synonyms passed in the same call (or a prefix that is itself only a synonym of the existing record) are silently dropped",
+                witness=" -> ".join(conds) + "; add_prefix('go', <registered URI prefix>, uri_prefix_synonyms=['urn:go:'], merge=True) registers nothing",
+                detail="no-op-return:add_prefix",
+            )
 
 
 @obligation("C05-D5", "SETALG frame+cover: _merge adds {prefix, synonyms} / {uri_prefix, synonyms} of the incoming record to the synonym lists of `into` only when absent, and never stores into.prefix / into.uri_prefix / into.pattern", floor=2)
